@@ -440,10 +440,15 @@ class C04(Prop):
     g = tv.SpecGen(rng)
     made = 0
     while made < n:
-      base = g.spec(rng.weighted([(2, 0), (5, 1), (3, 2)]))
-      child = g.mutate(base)
-      if rng.chance(0.3):
-        child = g.mutate(child)
+      if rng.chance(0.07):
+        child, base = tv.frozen_pair(g)        # frozen x frozen pairs (mostly over an Enum base)
+      elif rng.chance(0.04):
+        child, base = tv.tuple_pair(g)         # fixed tuple over variable tuple at the size bounds
+      else:
+        base = g.spec(rng.weighted([(2, 0), (5, 1), (3, 2)]))
+        child = g.mutate(base)
+        if rng.chance(0.3):
+          child = g.mutate(child)
       ok = True
       for d in (base, child):
         try:
@@ -561,6 +566,31 @@ class C04(Prop):
 
   # -- the property itself --------------------------------------------------------------------
   def oracle(self, case, out):
+    """The first failure of the property on this case; a failure that is not a listed finding takes
+    precedence over listed ones (so that a known defect cannot mask a new one in the same case)."""
+    fails = []
+    self.oracle_all(case, out, fails)
+    if not fails:
+      return None
+    known = self.known_signatures()
+    for f in fails:
+      if f['signature'] not in known:
+        return f
+    return fails[0]
+
+  _known = None
+
+  def known_signatures(self):
+    if C04._known is None:
+      from harness.common import framework
+      sigs = set()
+      for e in framework.load_findings(self.id):
+        if e.get('status') == 'known':
+          sigs.update(e.get('signature', '').split('|'))
+      C04._known = sigs
+    return C04._known
+
+  def oracle_all(self, case, out, fails):
     m = out.get('model')
     if m is None:
       return None
@@ -568,12 +598,13 @@ class C04(Prop):
     sa, sb = out['state_a'], out['state_b']
 
     def fail(sig, what):
-      return {'signature': sig, 'what': what}
+      if len(fails) < 24 and sig not in [f['signature'] for f in fails]:
+        fails.append({'signature': sig, 'what': what})
 
     # applying never changes the spec
     for name in ('a', 'b'):
       if not out['unchanged_' + name]:
-        return fail('spec-changed-by-apply:' + out['state_' + name][0], 'apply changed the state of spec %s' % name)
+        fail('spec-changed-by-apply:' + out['state_' + name][0], 'apply changed the state of spec %s' % name)
     # idempotence
     tables = [('a', sa, m['apply_a']), ('b', sb, m['apply_b'])]
     ext = m['extend']
@@ -585,14 +616,14 @@ class C04(Prop):
           kind = st[0]
           if kind == 'union' and frozen_foreign_default(st):
             kind = 'union-candidate-frozen-at-value-of-other-type'
-          return fail('not-idempotent:' + kind,
+          fail('not-idempotent:' + kind,
                       'spec %s %s: apply(%s) = %s but applying the result again gives %s' % (
                           name, json.dumps(st), json.dumps(v), json.dumps(r0[1]), json.dumps(again)))
     # a spec's own default is acceptable to it
     for name, st in (('a', sa), ('b', sb)):
       sd = m['selfdefault_' + name]
       if sd != ['ok', st[-1][1]]:
-        return fail('default-unacceptable:' + st[0], 'default %s of spec %s %s: apply gives %s' % (
+        fail('default-unacceptable:' + st[0], 'default %s of spec %s %s: apply gives %s' % (
             json.dumps(st[-1][1]), name, json.dumps(st), json.dumps(sd)))
     # compatibility is sound
     for recv, oth, flag, rt, ot in (('a', 'b', m['compat_ab'], m['apply_a'], m['apply_b']),
@@ -605,14 +636,14 @@ class C04(Prop):
         if has_missing(v):
           continue           # MISSING_VALUE marks absence; it is not a candidate value
         if y[0][0] == 'ok' and not acc:
-          return fail('compat-unsound:' + self.classify(rst, ost, v),
+          fail('compat-unsound:' + self.classify(rst, ost, v),
                       '%s.is_compatible(%s) is True, %s accepts %s, %s raises %s  [%s=%s; %s=%s]' % (
                           recv, oth, oth, json.dumps(v), recv, x[0][1], recv, json.dumps(rst), oth, json.dumps(ost)))
     # extension only narrows
     if 'spec' in ext:
       sc = ext['spec']
       if not out.get('base_unchanged', True):
-        return fail('base-changed-by-extend', 'extend changed the base spec')
+        fail('base-changed-by-extend', 'extend changed the base spec')
       import pyglove  # noqa: F401  (the projection below re-applies the base spec)
       b_real = tv.build(strip_rx(case['b']))
       for v, y in zip(values, ext['apply']):
@@ -621,15 +652,15 @@ class C04(Prop):
         pv = project(v, sc, sb)
         r, _ = _apply(b_real, tv.to_py(pv), False)
         if r[0] != 'ok':
-          return fail('extend-unsound:' + self.classify_ext(sc, sb, case['a'], v),
+          fail('extend-unsound:' + self.classify_ext(sc, sb, case['a'], v),
                       'a.extend(b) = %s accepts %s but the base %s raises %s on %s' % (
                           json.dumps(sc), json.dumps(v), json.dumps(sb), r[1], json.dumps(pv)))
       if not ext['base_compat'] and not added_fields(sc, sb):
-        return fail('extend-base-not-compatible:' + self.classify_bc(sc, sb),
+        fail('extend-base-not-compatible:' + self.classify_bc(sc, sb),
                     'a.extend(b) = %s succeeded but b.is_compatible(it) is False (b=%s)' % (json.dumps(sc), json.dumps(sb)))
       sd = out.get('selfdefault_c')
       if sd != ['ok', sc[-1][1]] and default_invalid(sc):
-        return fail('default-unacceptable-after-extend',
+        fail('default-unacceptable-after-extend',
                     'default %s of the extended spec %s: apply gives %s' % (json.dumps(sc[-1][1]), json.dumps(sc), json.dumps(sd)))
     return None
 
@@ -665,6 +696,8 @@ class C04(Prop):
       return 'default-not-revalidated'
     if dict_default_gap(sb, sc):
       return 'dict-field-default-ignored'
+    if union_int_and_float(sb) and any(x[0] in ('i', 'b', 'f', 's') for x in vat):
+      return 'union-dispatches-by-type'
     for d in spec_atoms(sc, True, []):
       if any(cross_type_equal(d, x) for x in vat):
         return 'value-equal-to-frozen-default-but-of-other-type'
